@@ -265,6 +265,39 @@ impl Version {
         false
     }
 
+    /// Record which file a read charges (verification instrumentation).
+    #[cfg(feature = "verif")]
+    pub(crate) fn verif_seek_event(
+        &self,
+        kind: &'static str,
+        key: &InternalKey,
+        charge: Option<&SeekChargeMetadata>,
+    ) {
+        if !crate::verif::seek_events() {
+            return;
+        }
+        let charged = charge.and_then(|metadata| {
+            metadata
+                .seek_file
+                .as_ref()
+                .map(|file| (metadata.seek_file_level.unwrap(), file.file_number()))
+        });
+        crate::verif::event(
+            self.db_options.db_path(),
+            crate::verif::Event::Seek {
+                kind,
+                user_key: key.get_user_key().to_vec(),
+                sequence: key.get_sequence_number(),
+                charged,
+                version_files: self
+                    .files
+                    .iter()
+                    .map(|level| level.iter().map(|file| file.file_number()).collect())
+                    .collect(),
+            },
+        );
+    }
+
     /// Return the number of table files at the specified level.
     pub(crate) fn num_files_at_level(&self, level: usize) -> usize {
         self.files[level].len()
@@ -649,6 +682,17 @@ impl Version {
                 }
             }
         }
+
+        #[cfg(feature = "verif")]
+        self.verif_seek_event(
+            "sample",
+            key,
+            if num_files_with_key >= 2 {
+                Some(&seek_charge_metadata)
+            } else {
+                None
+            },
+        );
 
         // We proceed to update stats only if there are at least 2 matches because we are trying
         // to flatten the search
